@@ -2,7 +2,7 @@
    Property theorems only.  [the_table] is REGENERATED from the Go source on every check
    (Gen/GenesisTable.v); the finite theorems are by computation over it, the lifting lemmas are
    generic (Proofs/GenesisProofs.v).  The property is false for the (module, prefix) pairs listed in
-   [known_holes] (classes kf_C20 3..6, 8..11, 14..19); each class has a [_refuted] statement, and
+   [known_holes] (classes kf_C20 3..6, 8..11, 14..17, 19); each class has a [_refuted] statement, and
    the positive theorems are stated on the complement.
    fixed: property=C20 f97a387 collector ExportGenesis emitted zero-valued net-fee records (class 1)
    fixed: property=C20 52f646d auctionsV2 InitGenesis reset the exported auction id and user bid id
@@ -11,6 +11,8 @@
           counter) from the DutchAuction field instead of DutchLendAuction (class 7)
    fixed: property=C20 17e806f collector InitGenesis dropped the lookup table, the auction mapping and
           the denoms mapping when the validating lookup setter failed (class 12)
+   fixed: property=C20 PENDING rewards InitGenesis never restored the id counters of the external
+          reward programmes for lockers / vaults: the next programme overwrote programme 1 (class 18)
    These classes and their [_refuted] theorems are deleted; their witnesses are the regression
    examples [c20_*_regression] below and forced cases of the behavioural runs (TestC20 cases 0, 1;
    TestC20Liq cases 0-3). *)
@@ -189,16 +191,6 @@ Theorem c20_absent_counters_refuted :
 Proof. repeat split; try (vm_compute; reflexivity). apply absent_restore_collides. Qed.
 Print Assumptions c20_absent_counters_refuted.
 
-(* class 18: the id counters of the external reward programmes for lockers and for vaults are never
-   written by rewards.InitGenesis although the programmes themselves (prefixes 19, 20) round-trip: with
-   programme 1 alive the counter reads 0 and the next programme is stored under id 1 again *)
-Theorem c20_ext_reward_ids_refuted :
-  counter_restore the_table "rewards" 21 = RAbsent /\ counter_restore the_table "rewards" 22 = RAbsent /\
-  cover_ok (classify the_table "rewards" 19) = true /\ cover_ok (classify the_table "rewards" 20) = true /\
-  exists items, restored_value RAbsent 1 items = None /\ In (next_id 0) (ids items).
-Proof. repeat split; try (vm_compute; reflexivity). apply absent_restore_collides. Qed.
-Print Assumptions c20_ext_reward_ids_refuted.
-
 (* class 10: the vault id is recomputed as the maximum LIVE vault id while vaults can be deleted:
    after vault 2 was closed the counter comes back as 1 and id 2 is handed out again (no collision
    - c20_fresh_ids - but not the id the original chain assigns) *)
@@ -280,6 +272,37 @@ Example c20_collector_import_regression :
     let s := [(1, [(11, 5)]); (3, [(12, 6)]); (5, [(13, 7)]); (7, [(14, 8)]); (8, [(15, 404000)])] in
     forallb (fun b => entries_eqb (get (roundtrip dv the_table "collector" s) b) (get s b)) [1; 3; 5; 7; 8] = true.
 Proof. split; [vm_compute; reflexivity|intros dv; vm_compute; reflexivity]. Qed.
+
+(* C20-F18 (fixed): rewards.InitGenesis recomputes the id counters of the external reward programmes
+   for lockers (prefix 21) and for vaults (22) as the maximum id of the imported programmes (19, 20).
+   No keeper function deletes a programme (they are only deactivated), so that maximum is the last id
+   handed out: both counters are outside every class and meet c20_counters_partial.  The witness of
+   the former c20_ext_reward_ids_refuted (programme 1 alive, counter 1): the counter comes back as 1
+   and the next programme gets id 2, which collides with nothing. *)
+Theorem c20_ext_reward_ids_restored : forall b items, b = 21 \/ b = 22 ->
+  let orig := zmax_list (ids items) in   (* no programme is ever deleted: the counter is the maximum id *)
+  restored_value (counter_restore the_table "rewards" b) orig items = Some orig /\
+  ~ In (next_id orig) (ids items).
+Proof.
+  intros b items Hb. cbv zeta. split; [|apply max_restore_fresh].
+  destruct Hb as [-> | ->].
+  - replace (counter_restore the_table "rewards" 21) with (RMax [19]) by (vm_compute; reflexivity). reflexivity.
+  - replace (counter_restore the_table "rewards" 22) with (RMax [20]) by (vm_compute; reflexivity). reflexivity.
+Qed.
+Print Assumptions c20_ext_reward_ids_restored.
+
+Example c20_ext_reward_ids_regression :
+  counter_restore the_table "rewards" 21 = RMax [19] /\ counter_restore the_table "rewards" 22 = RMax [20] /\
+  deletable the_table "rewards" [19] = false /\ deletable the_table "rewards" [20] = false /\
+  counter_ok the_table "rewards" 21 = true /\ counter_ok the_table "rewards" 22 = true /\
+  cover_ok (classify the_table "rewards" 19) = true /\ cover_ok (classify the_table "rewards" 20) = true /\
+  kf_C20_any "rewards" 21 = false /\ kf_C20_any "rewards" 22 = false /\
+  existsb (fun p => String.eqb (p_mod p) "rewards" && (p_byte p =? 21) && live p && p_counter p) prefixes = true /\
+  existsb (fun p => String.eqb (p_mod p) "rewards" && (p_byte p =? 22) && live p && p_counter p) prefixes = true /\
+  restored_value (counter_restore the_table "rewards" 21) 1 [(1, 7)] = Some 1 /\
+  restored_value (counter_restore the_table "rewards" 22) 2 [(1, 7); (2, 8)] = Some 2 /\
+  ~ In (next_id 1) (ids [(1, 7)]).
+Proof. repeat split; try (vm_compute; reflexivity). cbn. intros [H|[]]; discriminate. Qed.
 
 (* ---------------- non-vacuity ---------------- *)
 (* a locker store with two lockers, a lookup table and a user mapping round-trips on every covered
